@@ -20,19 +20,21 @@ func init() {
 			"Z-size — the bytes received into 'large' come from a bytes.Buffer whose Len() is known <= the result of (*storage).maxZipBlobSize at the receive, and every return of maxZipBlobSize is the test override field or a constant <= constants.MaxBlobSize. " +
 			"Z-read — in Fetch, SubFetch and StatBlobs every call into 'small' is unreachable once the getMetaRow row of the same ref is known to exist and be packed, every call into 'large' is unreachable when it is known not packed and takes ref/offset/length from that row (offset also from the caller's offset in SubFetch); the refs StatBlobs forwards to 'small' are exactly those appended after a miss in the meta lookup, and its callback answers from the row only when the row exists and with the row's size; ReceiveBlob acknowledges only when the row exists or small.ReceiveBlob succeeded; EnumerateBlobs merges exactly 'small' and the enumerator over the 'b:' range. " +
 			"Z-codec — every meta row writer in the package has a statically known key/value shape; for each kind (b:, w:<ref>:<n>, w:<ref>, z:) the packer-side and the reindex-side writers produce the same field sequence (separators, ref vs. decimal integer), the parsers (parseMetaRow, parseMetaRowSizeOnly, parseZipMetaRow, conv.ParseFields in OpenWholeRef) expect that field count and kinds in base 10 with a bit size not below the narrowest unsigned type any writer renders for that field; every meta.Find range ends at the successor of its prefix/separator; Manifest/BlobAndPos fields read by reindex/foreachZipBlob are written by writeAZip. " +
+			"Z-count — the reader of the un-suffixed whole-file row (found structurally: the function that parses the row value into integers and compares one of them with the number of part records collected from the ':<idx>'-suffixed keys; today OpenWholeRef, integer #1) returns success only under the fact 'count == number of w:<ref>:<idx> rows found' (so an interrupted pack, which has part rows and no final row, and a count that disagrees with the part rows are refused); every writer of the w:<ref> row (pack, reindex) computes the integer at that position from the very thing that keys the w:<ref>:<idx> rows written by the same pass (the writing function, its literals and the package functions it calls): the struct field holding each part's index (reindex: zipMetaInfo.wholePartIndex) or the collection whose length is each part's index (packer: packer.zips) — 'computed from' = backward data slice incl. locals, one level of package helper calls on the data path, and branch conditions that select merged values; a count taken from how many zips/attempts were seen (len of another collection, a separately bumped counter) is reported. Recorded as supporting fact, not required: the reader fails on a part whose index differs from its position, i.e. indexes are dense 0..count-1. " +
 			"Z-recover — newFromConfig returns a usable store only after checkLargeIntegrity was called and, once reindex was started, only on its success edge; reindex reports success only on the success edge of each of its top-level CommitBatch calls and assigns s.meta the very KeyValue it filled; large.RemoveBlobs (deleting a zip) is only reachable where zipPartsInUse of the same ref succeeded and returned no part in use. " +
-			"NOT decided: equality of client-visible bytes/sizes before, during and after a pack; that the b: rows cover, as run-time sets, exactly the blobs removed from small (only that both are built from the same local sources); zip validity and that the first entry is the contiguous file; accuracy of the size estimate and termination of truncate-and-retry; any crash schedule or recovery outcome; streaming (StreamBlobs) and whole-file reads beyond the row codec; deletion marks (d: rows).",
+			"NOT decided: equality of client-visible bytes/sizes before, during and after a pack; that the b: rows cover, as run-time sets, exactly the blobs removed from small (only that both are built from the same local sources); zip validity and that the first entry is the contiguous file; accuracy of the size estimate and termination of truncate-and-retry; the arithmetic of the part count (that it is exactly 'highest index + 1' / the number of distinct indexes — only what it is computed from; a separately maintained counter that happens to be right is reported too); any crash schedule or recovery outcome; streaming (StreamBlobs) and whole-file reads beyond the row codec; deletion marks (d: rows).",
 		RuleDocs: map[string]string{
 			"Z-order":   "dominance on err==nil edges in (*packer).writeAZip (receive into large -> CommitBatch -> small.RemoveBlobs), value identity of the zip ref in every batch row, loop-exit fact for the whole-file row in (*packer).pack, who-may-call for small.RemoveBlobs",
 			"Z-size":    "dominating comparison fact zbuf.Len() <= maxZipBlobSize() at the large receive over the very buffer that is received; constant bound of maxZipBlobSize against constants.MaxBlobSize",
 			"Z-read":    "path pruning under the assumption 'row exists and is packed' / 'row is not packed' from each getMetaRow lookup in Fetch/SubFetch/StatBlobs/ReceiveBlob; value dependence of the large read on the row; literal structure of the MergedEnumerate sources",
 			"Z-recover": "dominance: start-up (newFromConfig) returns a store only after checkLargeIntegrity ran and, in a recovery mode, after reindex succeeded; reindex returns success only after every top-level CommitBatch on the new index succeeded and installs that same index; a zip is removed from large only where zipPartsInUse of the same ref succeeded with an empty result",
+			"Z-count":   "writer/reader agreement by value dependence: the integer of the w:<ref> row that the reader requires to equal the number of w:<ref>:<idx> rows (dominating equality fact on every successful return) must, in each writer, depend on the field / collection that the part indexes of the same pass are formatted from",
 			"Z-codec":   "table agreement: statically evaluated Sprintf/concatenation shapes of all meta row writers, compared between sibling writers and with the parse-call chains of the parsers; Find range limits; struct fields read vs. written for the zip manifest",
 		},
 		Run:       runC04,
 		DesignRef: "DESIGN.md §4 C04",
-		Technique: "static analysis: dominance on error-success edges, path pruning under row-state assumptions, value identity/dependence over go/ssa, table agreement between row writers and parsers",
-		LevelText: "Decides structural necessary conditions only: the zip is stored before its rows are committed and the rows before loose copies are removed; stored zips are bounded by the blob size limit; reads pick small vs. large by the meta row of the same ref; packer, reindex and the parsers agree on the meta row codec and reindex reads only manifest fields the packer writes. Does not decide byte-level equality of what clients see, crash/recovery outcomes, zip validity or the size estimate (level 'other').",
+		Technique: "static analysis: dominance on error-success edges, path pruning under row-state assumptions, value identity/dependence over go/ssa, table agreement between row writers and parsers, value dependence of the stored part count on the part-index source",
+		LevelText: "Decides structural necessary conditions only: the zip is stored before its rows are committed and the rows before loose copies are removed; stored zips are bounded by the blob size limit; reads pick small vs. large by the meta row of the same ref; packer, reindex and the parsers agree on the meta row codec and reindex reads only manifest fields the packer writes; the part count of the whole-file row is computed from the part indexes that key the part rows and the reader serves a whole file only when both agree. Does not decide the arithmetic of that count, byte-level equality of what clients see, crash/recovery outcomes, zip validity or the size estimate (level 'other').",
 	})
 }
 
@@ -49,6 +51,7 @@ func runC04(p *Program, r *Reporter) {
 	c04ZSize(p, r)
 	c04ZRead(p, r)
 	c04ZCodec(p, r, writers)
+	c04ZCount(p, r, writers)
 	c04ZRecover(p, r)
 }
 
@@ -232,7 +235,21 @@ func c04RootAlloc(addr ssa.Value) *ssa.Alloc {
 // addressed through field/index chains (struct literals, varargs arrays,
 // locals such as zipSB whose fields are read back).
 func c04Depends(v ssa.Value, target func(ssa.Value) bool) bool {
-	seen := map[ssa.Value]bool{}
+	return c04DependsOpt(v, target, false)
+}
+
+// c04DependsOpt is c04Depends; with ctl it additionally follows
+//   - control dependence of merged values: for a phi, the branch conditions
+//     known on each incoming edge (dominating facts of the predecessor and the
+//     predecessor's own If); for a store into a followed variable, the facts
+//     at the store;
+//   - one level of calls on the data path: a call to a module function in the
+//     slice depends on everything that function (and its literals) computes
+//     with. Calls that are only reached through a branch condition are not
+//     entered (a counter bumped under `err == nil` of a call is not "computed
+//     from" what the callee reads).
+func c04DependsOpt(v ssa.Value, target func(ssa.Value) bool, ctl bool) bool {
+	seen := [2]map[ssa.Value]bool{{}, {}} // [1]: reached through a branch condition
 	storeIdx := map[*ssa.Function]map[*ssa.Alloc][]*ssa.Store{}
 	storesUnder := func(al *ssa.Alloc) []*ssa.Store {
 		fn := al.Parent()
@@ -252,44 +269,94 @@ func c04Depends(v ssa.Value, target func(ssa.Value) bool) bool {
 		}
 		return idx[al]
 	}
-	var walk func(v ssa.Value, depth int) bool
-	walk = func(v ssa.Value, depth int) bool {
-		if v == nil || seen[v] || depth > 80 {
+	var walk func(v ssa.Value, depth int, inCond bool) bool
+	walk = func(v ssa.Value, depth int, inCond bool) bool {
+		mode := 0
+		if inCond {
+			mode = 1
+		}
+		if v == nil || seen[mode][v] || depth > 80 {
 			return false
 		}
-		seen[v] = true
+		seen[mode][v] = true
 		if target(v) {
 			return true
 		}
 		if al, ok := v.(*ssa.Alloc); ok {
-			for _, st := range storesUnder(al) {
-				if walk(st.Val, depth+1) {
-					return true
-				}
-			}
-			for _, st := range storesTo(al) {
-				if walk(st.Val, depth+1) {
-					return true
+			for _, sts := range [][]*ssa.Store{storesUnder(al), storesTo(al)} {
+				for _, st := range sts {
+					if walk(st.Val, depth+1, inCond) {
+						return true
+					}
+					if ctl && st.Block() != nil {
+						for _, f := range FactsAt(st.Block()) {
+							if walk(f.Cond, depth+1, true) {
+								return true
+							}
+						}
+					}
 				}
 			}
 			return false
 		}
+		if ctl {
+			if ph, ok := v.(*ssa.Phi); ok {
+				for i := range ph.Edges {
+					pred := ph.Block().Preds[i]
+					for _, f := range FactsAt(pred) {
+						if walk(f.Cond, depth+1, true) {
+							return true
+						}
+					}
+					if n := len(pred.Instrs); n > 0 {
+						if ifi, ok := pred.Instrs[n-1].(*ssa.If); ok && walk(ifi.Cond, depth+1, true) {
+							return true
+						}
+					}
+				}
+			}
+			if call, ok := v.(*ssa.Call); ok && !inCond {
+				if f := (CallSite{call.Parent(), call}).Callee(); f != nil && InModule(f) && f.Blocks != nil && c04BodyHas(f, target, 0) {
+					return true
+				}
+			}
+		}
 		if fv, ok := v.(*ssa.FreeVar); ok {
 			if b := bindingOf(fv); b != nil {
-				return walk(b, depth+1)
+				return walk(b, depth+1, inCond)
 			}
 			return false
 		}
 		if in, ok := v.(ssa.Instruction); ok {
 			for _, op := range in.Operands(nil) {
-				if *op != nil && walk(*op, depth+1) {
+				if *op != nil && walk(*op, depth+1, inCond) {
 					return true
 				}
 			}
 		}
 		return false
 	}
-	return walk(v, 0)
+	return walk(v, 0, false)
+}
+
+// c04BodyHas: some value computed in f or its literals satisfies target.
+func c04BodyHas(f *ssa.Function, target func(ssa.Value) bool, depth int) bool {
+	if depth > 4 {
+		return false
+	}
+	for _, b := range f.Blocks {
+		for _, in := range b.Instrs {
+			if v, ok := in.(ssa.Value); ok && target(v) {
+				return true
+			}
+		}
+	}
+	for _, a := range f.AnonFuncs {
+		if c04BodyHas(a, target, depth+1) {
+			return true
+		}
+	}
+	return false
 }
 
 // c04ReachAssuming is ReachableFrom with branch pruning: assume may decide an
@@ -546,8 +613,19 @@ func c04Shape(v ssa.Value, depth int) (toks []c04Tok, err string) {
 				if e != "" {
 					return nil, e
 				}
+				// holes that render a parameter of the helper denote the
+				// caller's argument; other holes are values of the callee's
+				// frame and have no meaning in the caller
 				for i := range inner {
-					inner[i].Val = nil
+					var mapped ssa.Value
+					if prm, isPrm := inner[i].Val.(*ssa.Parameter); isPrm && !x.Call.IsInvoke() && len(f.Params) == len(x.Call.Args) {
+						for pi, fp := range f.Params {
+							if fp == prm {
+								mapped = c04StripIfaceOnly(x.Call.Args[pi])
+							}
+						}
+					}
+					inner[i].Val = mapped
 				}
 				return inner, ""
 			}
@@ -2146,6 +2224,503 @@ func c04ManifestFields(p *Program, r *Reporter) {
 			"manifest field "+f+" is read by "+FuncKey(reads[f].fn)+" (recovery/streaming) but never written by writeAZip: every zip produced is rejected or mis-indexed on reindex")
 	}
 	r.Analysed("manifest_fields_read", len(names))
+}
+
+// ---------------------------------------------------------------------------
+// Z-count: the part count stored in the w:<ref> row is computed from the part
+// indexes that key the w:<ref>:<idx> rows (H7, writer/reader agreement by
+// value dependence)
+
+// c04FieldID names a struct field at type level.
+type c04FieldID struct {
+	named *types.Named
+	idx   int
+}
+
+func (f c04FieldID) String() string {
+	return f.named.Obj().Name() + "." + fieldName(f.named, f.idx)
+}
+
+// c04FieldOf: v is the address or the value of a field of a named struct.
+func c04FieldOf(v ssa.Value) (c04FieldID, bool) {
+	switch x := v.(type) {
+	case *ssa.FieldAddr:
+		if n := NamedOf(x.X.Type()); n != nil {
+			return c04FieldID{n, x.Field}, true
+		}
+	case *ssa.Field:
+		if n := NamedOf(x.X.Type()); n != nil {
+			return c04FieldID{n, x.Field}, true
+		}
+	}
+	return c04FieldID{}, false
+}
+
+func c04StripConv(v ssa.Value) ssa.Value {
+	for {
+		switch x := v.(type) {
+		case *ssa.Convert:
+			v = x.X
+		case *ssa.ChangeType:
+			v = x.X
+		case *ssa.MakeInterface:
+			v = x.X
+		default:
+			return v
+		}
+	}
+}
+
+func c04IsLenCall(v ssa.Value) (arg ssa.Value, ok bool) {
+	call, isCall := v.(*ssa.Call)
+	if !isCall {
+		return nil, false
+	}
+	if b, isB := call.Call.Value.(*ssa.Builtin); !isB || b.Name() != "len" || len(call.Call.Args) != 1 {
+		return nil, false
+	}
+	return call.Call.Args[0], true
+}
+
+// c04KeySource names what a part index (the <idx> of a w:<ref>:<idx> key) is
+// immediately computed from: a struct field read ("field": the index is stored
+// in the element, e.g. zipMetaInfo.wholePartIndex), or the length of a
+// collection held in a struct field ("len": the index is the position in that
+// collection, e.g. len(pk.zips)). Offsets by constants and single-store locals
+// are looked through; anything else is not named (ok == false).
+func c04KeySource(v ssa.Value) (src c04FieldID, how string, ok bool) {
+	fieldRead := func(v ssa.Value) (c04FieldID, bool) {
+		v = c04StripConv(v)
+		if ld, isLd := v.(*ssa.UnOp); isLd && ld.Op == token.MUL {
+			return c04FieldOf(ld.X)
+		}
+		return c04FieldOf(v)
+	}
+	for i := 0; i < 16 && v != nil; i++ {
+		v = c04StripConv(v)
+		if id, isF := fieldRead(v); isF {
+			return id, "field", true
+		}
+		switch x := v.(type) {
+		case *ssa.UnOp:
+			if x.Op != token.MUL {
+				return src, "", false
+			}
+			rv := resolveLoad(x)
+			if rv == nil {
+				return src, "", false
+			}
+			v = rv
+		case *ssa.BinOp:
+			if x.Op != token.ADD && x.Op != token.SUB {
+				return src, "", false
+			}
+			if _, isC := x.Y.(*ssa.Const); isC {
+				v = x.X
+			} else if _, isC := x.X.(*ssa.Const); isC && x.Op == token.ADD {
+				v = x.Y
+			} else {
+				return src, "", false
+			}
+		case *ssa.Call:
+			arg, isLen := c04IsLenCall(x)
+			if !isLen {
+				return src, "", false
+			}
+			if id, isF := fieldRead(arg); isF {
+				return id, "len", true
+			}
+			return src, "", false
+		default:
+			return src, "", false
+		}
+	}
+	return src, "", false
+}
+
+// c04PassFuncs: top, its literals, and the functions of the package they call
+// statically (two levels): the code that runs as one pack / one reindex pass.
+func c04PassFuncs(top *ssa.Function) map[*ssa.Function]bool {
+	set := map[*ssa.Function]bool{}
+	var add func(f *ssa.Function, depth int)
+	add = func(f *ssa.Function, depth int) {
+		if f == nil || set[f] || f.Blocks == nil {
+			return
+		}
+		set[f] = true
+		for _, a := range f.AnonFuncs {
+			add(a, depth)
+		}
+		if depth >= 2 {
+			return
+		}
+		for _, c := range CallsIn(f, false) {
+			if cal := c.Callee(); cal != nil && cal.Pkg != nil && RelPkg(cal.Pkg.Pkg) == c04Rel {
+				add(cal, depth+1)
+			}
+		}
+	}
+	add(top, 0)
+	return set
+}
+
+// c04CountConsumer finds, in one function that parses the value of the
+// un-suffixed whole-file row into nf integers, which of them is compared with
+// the number of part rows collected from the suffixed keys. Returns the
+// position of that integer in the row value (-1 if the function does not parse
+// such a row).
+func c04CountConsumer(p *Program, r *Reporter, fn *ssa.Function, nf int) int {
+	const rule = "Z-count"
+	pfs, err := c04ParseFieldsCalls(fn)
+	if err != "" || len(pfs) == 0 {
+		return -1 // Z-codec reports an unreadable ParseFields
+	}
+	var valuePF, keyPF []c04PFCall
+	for _, pc := range pfs {
+		allInt := true
+		for _, f := range pc.fields {
+			if f.kind != "int" {
+				allInt = false
+			}
+		}
+		switch {
+		case pc.fromValue && allInt && len(pc.fields) == nf:
+			valuePF = append(valuePF, pc)
+		case pc.fromKey && allInt && len(pc.fields) == 1:
+			keyPF = append(keyPF, pc)
+		}
+	}
+	if len(valuePF) == 0 {
+		return -1
+	}
+	key := FuncKey(fn)
+	site := p.Pos(valuePF[0].c.Pos())
+	if len(valuePF) != 1 || len(keyPF) != 1 {
+		r.Undecided(rule, key+"#count-consumer", site, fmt.Sprintf("%d parses of a %d-integer row value and %d parses of a part index from a key; the rule follows exactly one of each", len(valuePF), nf, len(keyPF)))
+		return -1
+	}
+	// destinations of the row value
+	dests, _ := c04VarargElems(valuePF[0].c.Common().Args[1])
+	for i := range dests {
+		dests[i] = c04StripIfaceOnly(dests[i])
+	}
+	// the struct the part index is parsed into
+	kd, _ := c04VarargElems(keyPF[0].c.Common().Args[1])
+	var partVar ssa.Value
+	var idxField c04FieldID
+	if len(kd) == 1 {
+		if fa, ok := c04StripIfaceOnly(kd[0]).(*ssa.FieldAddr); ok {
+			partVar = fa.X
+			idxField, _ = c04FieldOf(fa)
+		}
+	}
+	if partVar == nil {
+		r.Undecided(rule, key+"#count-consumer", site, "the part index parsed from the key is not stored into a field of a part record: cannot find the collection of part rows")
+		return -1
+	}
+	// the appends that collect part records
+	var appends []*ssa.Call
+	for _, c := range CallsIn(fn, false) {
+		call := c.Value()
+		if call == nil {
+			continue
+		}
+		if b, ok := call.Call.Value.(*ssa.Builtin); !ok || b.Name() != "append" || len(call.Call.Args) != 2 {
+			continue
+		}
+		elems, ok := c04VarargElems(call.Call.Args[1])
+		if !ok {
+			continue
+		}
+		for _, e := range elems {
+			if c04Depends(e, func(x ssa.Value) bool { return x == partVar }) {
+				appends = append(appends, call)
+				break
+			}
+		}
+	}
+	isPartsLen := func(v ssa.Value) bool {
+		arg, ok := c04IsLenCall(v)
+		if !ok {
+			return false
+		}
+		return c04Depends(arg, func(x ssa.Value) bool {
+			for _, a := range appends {
+				if x == ssa.Value(a) {
+					return true
+				}
+			}
+			return false
+		})
+	}
+	destOf := func(v ssa.Value) int {
+		for i, d := range dests {
+			d := d
+			if c04Depends(v, func(x ssa.Value) bool {
+				ld, ok := x.(*ssa.UnOp)
+				return ok && ld.Op == token.MUL && ld.X == d
+			}) {
+				return i
+			}
+		}
+		return -1
+	}
+	// comparisons count <-> len(parts)
+	type cmp struct {
+		bo  *ssa.BinOp
+		pos int
+	}
+	var cmps []cmp
+	for _, b := range fn.Blocks {
+		for _, in := range b.Instrs {
+			bo, ok := in.(*ssa.BinOp)
+			if !ok {
+				continue
+			}
+			switch bo.Op {
+			case token.EQL, token.NEQ, token.LSS, token.LEQ, token.GTR, token.GEQ:
+			default:
+				continue
+			}
+			if _, isC := bo.X.(*ssa.Const); isC {
+				continue
+			}
+			if _, isC := bo.Y.(*ssa.Const); isC {
+				continue
+			}
+			for _, sides := range [][2]ssa.Value{{bo.X, bo.Y}, {bo.Y, bo.X}} {
+				if !c04Depends(sides[0], isPartsLen) || c04Depends(sides[1], isPartsLen) {
+					continue
+				}
+				if i := destOf(sides[1]); i >= 0 && destOf(sides[0]) < 0 {
+					cmps = append(cmps, cmp{bo, i})
+				}
+			}
+		}
+	}
+	if len(cmps) == 0 {
+		r.Undecided(rule, key+"#count-consumer", site, fmt.Sprintf("the %d integers of the whole-file row are parsed, but none is compared with the number of part rows collected from the suffixed keys: cannot tell which one is the part count, nor that a file whose final row is missing or disagrees with its part rows is refused", nf))
+		return -1
+	}
+	pos := cmps[0].pos
+	for _, c := range cmps {
+		if c.pos != pos {
+			r.Undecided(rule, key+"#count-consumer", site, "different integers of the row are compared with the number of part rows")
+			return -1
+		}
+	}
+	// every possibly-successful return lies under "count == number of part rows"
+	bad := ""
+	nSucc := 0
+	for _, nr := range MaybeNilErrorReturns(fn) {
+		nSucc++
+		guarded := false
+		for _, f := range FactsAt(nr.From) {
+			for _, c := range cmps {
+				if f.Cond == ssa.Value(c.bo) && (c.bo.Op == token.EQL && f.Val || c.bo.Op == token.NEQ && !f.Val) {
+					guarded = true
+				}
+			}
+		}
+		if !guarded {
+			bad = fmt.Sprintf("the return at line %d serves the file although the number of part rows found is not known equal to the count of the w:<ref> row (an interrupted pack has part rows and no final row; a stale or inflated count has fewer part rows than it announces)", c04Line(p, nr.Ret.Pos()))
+		}
+	}
+	if nSucc == 0 {
+		bad = "no successful return found"
+	}
+	r.Check(bad == "", rule, key+"#count-consumer", p.Pos(cmps[0].bo.Pos()),
+		fmt.Sprintf("integer #%d of the w:<ref> value is the part count: every successful return (%d) is under the fact that it equals the number of w:<ref>:<idx> rows collected", pos, nSucc), bad)
+
+	// supporting fact (recorded, not required): the part indexes are demanded dense, 0..count-1
+	dense := false
+	for _, b := range fn.Blocks {
+		for _, in := range b.Instrs {
+			bo, ok := in.(*ssa.BinOp)
+			if !ok || (bo.Op != token.EQL && bo.Op != token.NEQ) || len(b.Succs) != 2 {
+				continue
+			}
+			ifi, ok := b.Instrs[len(b.Instrs)-1].(*ssa.If)
+			if !ok || ifi.Cond != ssa.Value(bo) {
+				continue
+			}
+			for _, sides := range [][2]ssa.Value{{bo.X, bo.Y}, {bo.Y, bo.X}} {
+				iv := c04StripConv(sides[1])
+				if _, isC := iv.(*ssa.Const); isC {
+					continue
+				}
+				// sides[0]: the idx field of the element at position iv of the collected parts
+				var elemAt *ssa.IndexAddr
+				readsIdx := c04Depends(sides[0], func(x ssa.Value) bool {
+					id, ok := c04FieldOf(x)
+					return ok && id == idxField
+				})
+				c04Depends(sides[0], func(x ssa.Value) bool {
+					if ia, ok := x.(*ssa.IndexAddr); ok && ia.Index == iv {
+						elemAt = ia
+					}
+					return false
+				})
+				if !readsIdx || elemAt == nil {
+					continue
+				}
+				// on the mismatch edge no successful return is reachable
+				mis := b.Succs[0]
+				if bo.Op == token.EQL {
+					mis = b.Succs[1]
+				}
+				reach := BlocksFrom(mis)
+				leak := false
+				for _, nr := range MaybeNilErrorReturns(fn) {
+					if reach[nr.Ret.Block()] {
+						leak = true
+					}
+				}
+				if !leak {
+					dense = true
+				}
+			}
+		}
+	}
+	if dense {
+		r.OKTable(rule, key+"#part-indexes-dense", site, "supporting fact: a part whose index differs from its position among the sorted part rows makes the read fail, so the indexes served are exactly 0..count-1 (hence 'highest index + 1' is the count a writer must store)")
+	} else {
+		r.Note("Z-count: %s does not visibly demand dense part indexes (supporting fact only, not required)", key)
+	}
+	return pos
+}
+
+func c04ZCount(p *Program, r *Reporter, writers []*c04Writer) {
+	const rule = "Z-count"
+	wP := c04StrConst(p, "wholeMetaPrefix")
+	wholeKind, partKind := wP+"<ref>", wP+"<ref>:<int>"
+	// number of fields of the whole-file row, from its writers
+	nf := 0
+	for _, w := range writers {
+		if w.kind == wholeKind && w.valErr == "" {
+			if fs, ok := c04Fields(w.val); ok && len(fs) > nf {
+				nf = len(fs)
+			}
+		}
+	}
+	if nf == 0 {
+		r.Undecided(rule, c04Rel+"#kind "+wholeKind, "?", "no writer of the whole-file row with a readable value shape")
+		r.Floor(rule, 3)
+		return
+	}
+	// readers
+	pos, nReaders := -1, 0
+	for _, fn := range p.FuncsIn(c04Rel) {
+		if i := c04CountConsumer(p, r, fn, nf); i >= 0 {
+			nReaders++
+			if pos >= 0 && pos != i {
+				r.Undecided(rule, FuncKey(fn)+"#count-consumer", p.Pos(fn.Pos()), "two readers take different integers of the row for the part count")
+			}
+			pos = i
+		}
+	}
+	r.Analysed("whole_row_count_readers", nReaders)
+	if pos < 0 {
+		if nReaders == 0 {
+			r.Undecided(rule, c04Rel+"#count-consumer", "?", "no function of the package compares an integer of the w:<ref> row with the number of part rows: the writer-side clause has nothing to agree with")
+		}
+		r.Floor(rule, 3)
+		return
+	}
+	// writers
+	for _, w := range writers {
+		if w.kind != wholeKind {
+			continue
+		}
+		construct := FuncKey(w.c.Fn) + "#count-of " + w.kind
+		site := p.Pos(w.c.Pos())
+		if w.valErr != "" {
+			r.Undecided(rule, construct, site, "row value cannot be evaluated: "+w.valErr)
+			continue
+		}
+		fs, ok := c04Fields(w.val)
+		if !ok || pos >= len(fs) {
+			r.Undecided(rule, construct, site, fmt.Sprintf("row value %s has no field #%d (the part count the reader compares)", c04Sig(w.val), pos))
+			continue
+		}
+		cnt := fs[pos]
+		if cnt.Val == nil {
+			r.Undecided(rule, construct, site, "the part count is rendered inside a helper; the rule follows counts computed in the writing function")
+			continue
+		}
+		top := TopFunc(w.c.Fn)
+		pass := c04PassFuncs(top)
+		var refTok *c04Tok
+		for i := range w.key {
+			if w.key[i].Hole && w.key[i].class() == "ref" {
+				refTok = &w.key[i]
+			}
+		}
+		type keySrc struct {
+			src c04FieldID
+			how string
+			by  *c04Writer
+		}
+		var srcs []keySrc
+		undec := ""
+		nPart := 0
+		for _, pw := range writers {
+			if pw.kind != partKind || !pass[pw.c.Fn] {
+				continue
+			}
+			var k, kref *c04Tok
+			for i := range pw.key {
+				if pw.key[i].Hole && pw.key[i].class() == "int" {
+					k = &pw.key[i]
+				}
+				if pw.key[i].Hole && pw.key[i].class() == "ref" {
+					kref = &pw.key[i]
+				}
+			}
+			// rows of another whole ref written by the same function are not this file's parts
+			if pw.c.Fn == w.c.Fn && refTok != nil && kref != nil && refTok.Val != nil && kref.Val != nil && !sameOrigin(refTok.Val, kref.Val) {
+				continue
+			}
+			nPart++
+			if k == nil || k.Val == nil {
+				undec = fmt.Sprintf("the part index of the %s row written by %s (line %d) is rendered inside a helper", partKind, FuncKey(pw.c.Fn), c04Line(p, pw.c.Pos()))
+				continue
+			}
+			src, how, ok := c04KeySource(k.Val)
+			if !ok {
+				undec = fmt.Sprintf("the part index of the %s row written by %s (line %d) is neither a struct field nor the length of a collection held in a struct field (offsets by constants allowed): the rule cannot name what the count has to be computed from", partKind, FuncKey(pw.c.Fn), c04Line(p, pw.c.Pos()))
+				continue
+			}
+			srcs = append(srcs, keySrc{src, how, pw})
+		}
+		if nPart == 0 {
+			r.Undecided(rule, construct, site, "the pass that writes this whole-file row ("+FuncKey(top)+" and the package functions it calls) writes no "+partKind+" row: nothing to relate the count to")
+			continue
+		}
+		if undec != "" {
+			r.Undecided(rule, construct, site, undec)
+			continue
+		}
+		bad, good := "", ""
+		for _, ks := range srcs {
+			ks := ks
+			dep := c04DependsOpt(cnt.Val, func(x ssa.Value) bool {
+				id, ok := c04FieldOf(x)
+				return ok && id == ks.src
+			}, true)
+			what := "the field " + ks.src.String() + " that holds each part's index"
+			if ks.how == "len" {
+				what = "the collection " + ks.src.String() + " whose length is each part's index"
+			}
+			if dep {
+				good = fmt.Sprintf("the part count is computed from %s in the %s rows of the same pass (%s, line %d)", what, partKind, FuncKey(ks.by.c.Fn), c04Line(p, ks.by.c.Pos()))
+			} else {
+				bad = fmt.Sprintf("the part count written to %s does not depend on %s, which keys the %s rows of the same pass (%s, line %d): it is derived from something else (e.g. how many zips were seen), so zips that share a part index, or attempts that wrote no part row, make the count differ from the number of part rows and %s refuses the file for good", wholeKind, what, partKind, FuncKey(ks.by.c.Fn), c04Line(p, ks.by.c.Pos()), "the reader")
+			}
+		}
+		r.Check(bad == "", rule, construct, site, good, bad)
+	}
+	r.Floor(rule, 3)
 }
 
 // ---------------------------------------------------------------------------
